@@ -14,7 +14,7 @@ def ScalarNe (a b : LoopRow) : Prop := ¬(a.cid = b.cid ∧ a.category = some []
     container and belongs to exactly one loop); at most one scalar loop per container, and its row counter never exceeds 1;
     foreign keys: every loop belongs to an existing container, every item to an existing loop, every value to an existing
     item; row numbers are positive -/
-structure Inv (d : Db) : Prop where
+structure InvCore (d : Db) : Prop where
   loopPK : d.loops.Pairwise LoopKeyNe
   itemPK : d.items.Pairwise ItemKeyNe
   valuePK : d.values.Pairwise ValueKeyNe
@@ -25,7 +25,7 @@ structure Inv (d : Db) : Prop where
   itemFK : ∀ i ∈ d.items, d.hasLoop i.cid i.loopNum = true
   valueFK : ∀ v ∈ d.values, d.hasItem v.cid v.name = true
 
-theorem Inv.empty : Inv {} :=
+theorem InvCore.empty : InvCore {} :=
   ⟨List.Pairwise.nil, List.Pairwise.nil, List.Pairwise.nil, List.Pairwise.nil, (fun l h => nomatch h), (fun v h => nomatch h),
    (fun l h => nomatch h), (fun l h => nomatch h), (fun l h => nomatch h)⟩
 
@@ -37,8 +37,8 @@ theorem hasContainer_iff (d : Db) (c : Nat) : d.hasContainer c = true ↔ ∃ r 
   simp [Db.hasContainer, List.any_eq_true]
 
 /-- statements that leave loop / loop_item / item_value alone and lose no container -/
-theorem Inv.congr {d d' : Db} (h : Inv d) (hl : d'.loops = d.loops) (hi : d'.items = d.items) (hv : d'.values = d.values)
-    (hc : ∀ id, d.hasContainer id = true → d'.hasContainer id = true) : Inv d' :=
+theorem InvCore.congr {d d' : Db} (h : InvCore d) (hl : d'.loops = d.loops) (hi : d'.items = d.items) (hv : d'.values = d.values)
+    (hc : ∀ id, d.hasContainer id = true → d'.hasContainer id = true) : InvCore d' :=
   ⟨by rw [hl]; exact h.loopPK, by rw [hi]; exact h.itemPK, by rw [hv]; exact h.valuePK, by rw [hl]; exact h.scalar1,
    by rw [hl]; exact h.scalarRows, by rw [hv]; exact h.rowPos,
    by rw [hl]; intro l hm; exact hc _ (h.loopFK l hm),
@@ -46,7 +46,7 @@ theorem Inv.congr {d d' : Db} (h : Inv d) (hl : d'.loops = d.loops) (hi : d'.ite
    by rw [hv]; intro v hm; have := h.valueFK v hm; simp only [Db.hasItem, hi] at this ⊢; exact this⟩
 
 /-- unique loop keys in the form the atomicity lemmas use -/
-theorem Inv.toLoopPK {d : Db} (h : Inv d) : LoopPK d := by
+theorem InvCore.toLoopPK {d : Db} (h : InvCore d) : LoopPK d := by
   intro cid ln
   have := h.loopPK
   generalize d.loops = ls at this
@@ -70,7 +70,7 @@ theorem filter_true' {α} (l : List α) : l.filter (fun _ => true) = l := List.f
 -- ---- statements that only remove rows -----------------------------------------------------------------------------------
 
 /-- delete from item_value only -/
-theorem Inv.filterValues {d : Db} (h : Inv d) (pv : ValueRow → Bool) : Inv { d with values := d.values.filter pv } :=
+theorem InvCore.filterValues {d : Db} (h : InvCore d) (pv : ValueRow → Bool) : InvCore { d with values := d.values.filter pv } :=
   ⟨h.loopPK, h.itemPK, h.valuePK.filter _, h.scalar1, h.scalarRows, fun v hm => h.rowPos v (List.mem_filter.mp hm).1,
    h.loopFK, h.itemFK, fun v hm => h.valueFK v (List.mem_filter.mp hm).1⟩
 
@@ -94,7 +94,7 @@ theorem cascade_values (items : List ItemRow) (values : List ValueRow) (q : Item
       exact ⟨i, List.mem_filter.mpr ⟨hi, hp⟩, by simp [h1, h2]⟩
     simp [this] at hkeep
 
-theorem Inv.deleteItems {d : Db} (h : Inv d) (p : ItemRow → Bool) : Inv (d.deleteItems p) := by
+theorem InvCore.deleteItems {d : Db} (h : InvCore d) (p : ItemRow → Bool) : InvCore (d.deleteItems p) := by
   unfold Db.deleteItems
   refine ⟨h.loopPK, h.itemPK.filter _, h.valuePK.filter _, h.scalar1, h.scalarRows,
     fun v hm => h.rowPos v (List.mem_filter.mp hm).1, h.loopFK, fun i hm => h.itemFK i (List.mem_filter.mp hm).1, ?_⟩
@@ -104,9 +104,9 @@ theorem Inv.deleteItems {d : Db} (h : Inv d) (p : ItemRow → Bool) : Inv (d.del
 
 /-- delete from loop (cascading to loop_item and item_value), possibly together with container rows none of the
     surviving loops refers to -/
-theorem Inv.deleteLoopsWith {d : Db} (h : Inv d) (p : LoopRow → Bool) (cs : List ContainerRow) (bs : List BlockRow) (fs : List FrameRow)
+theorem InvCore.deleteLoopsWith {d : Db} (h : InvCore d) (p : LoopRow → Bool) (cs : List ContainerRow) (bs : List BlockRow) (fs : List FrameRow)
     (hcs : ∀ l ∈ d.loops, p l = false → cs.any (fun c => c.id == l.cid) = true) :
-    Inv (({ d with containers := cs, blocks := bs, frames := fs } : Db).deleteLoops p) := by
+    InvCore (({ d with containers := cs, blocks := bs, frames := fs } : Db).deleteLoops p) := by
   unfold Db.deleteLoops Db.deleteItems
   refine ⟨h.loopPK.filter _, h.itemPK.filter _, h.valuePK.filter _, h.scalar1.filter _,
     fun l hm => h.scalarRows l (List.mem_filter.mp hm).1, fun v hm => h.rowPos v (List.mem_filter.mp hm).1, ?_, ?_, ?_⟩
@@ -133,10 +133,10 @@ theorem Inv.deleteLoopsWith {d : Db} (h : Inv d) (p : LoopRow → Bool) (cs : Li
     rw [hasItem_iff]
     exact cascade_values d.items d.values _ (fun v hv => (hasItem_iff d _ _).mp (h.valueFK v hv)) v hm
 
-theorem Inv.deleteLoops {d : Db} (h : Inv d) (p : LoopRow → Bool) : Inv (d.deleteLoops p) :=
+theorem InvCore.deleteLoops {d : Db} (h : InvCore d) (p : LoopRow → Bool) : InvCore (d.deleteLoops p) :=
   h.deleteLoopsWith p d.containers d.blocks d.frames (fun l hl _ => h.loopFK l hl)
 
-theorem Inv.deleteContainer {d : Db} (h : Inv d) (id : Nat) : Inv (d.deleteContainer id).1 := by
+theorem InvCore.deleteContainer {d : Db} (h : InvCore d) (id : Nat) : InvCore (d.deleteContainer id).1 := by
   unfold Db.deleteContainer
   simp only []
   split
@@ -149,26 +149,26 @@ theorem Inv.deleteContainer {d : Db} (h : Inv d) (id : Nat) : Inv (d.deleteConta
     have : l.cid ≠ id := by simpa using hp
     simp [hid, this]
 
-theorem Inv.removeItem {d : Db} (h : Inv d) (cid : Nat) (k : Str) : Inv (d.removeItem cid k) := h.deleteItems _
-theorem Inv.destroyLoop {d : Db} (h : Inv d) (cid ln : Nat) : Inv (d.destroyLoop cid ln).1 := h.deleteLoops _
-theorem Inv.prune {d : Db} (h : Inv d) (cid : Nat) : Inv (d.prune cid) := h.deleteLoops _
-theorem Inv.removePacket {d : Db} (h : Inv d) (cid ln row : Nat) : Inv (d.removePacket cid ln row) := h.filterValues _
+theorem InvCore.removeItem {d : Db} (h : InvCore d) (cid : Nat) (k : Str) : InvCore (d.removeItem cid k) := h.deleteItems _
+theorem InvCore.destroyLoop {d : Db} (h : InvCore d) (cid ln : Nat) : InvCore (d.destroyLoop cid ln).1 := h.deleteLoops _
+theorem InvCore.prune {d : Db} (h : InvCore d) (cid : Nat) : InvCore (d.prune cid) := h.deleteLoops _
+theorem InvCore.removePacket {d : Db} (h : InvCore d) (cid ln row : Nat) : InvCore (d.removePacket cid ln row) := h.filterValues _
 
 -- ---- inserts ---------------------------------------------------------------------------------------------------------------
 
-theorem Inv.insertContainer {d : Db} (h : Inv d) : Inv d.insertContainer.1 :=
+theorem InvCore.insertContainer {d : Db} (h : InvCore d) : InvCore d.insertContainer.1 :=
   h.congr rfl rfl rfl (fun id hid => by
     obtain ⟨r, hr, he⟩ := (hasContainer_iff d id).mp hid
     exact (hasContainer_iff _ id).mpr ⟨r, List.mem_append_left _ hr, he⟩)
 
-theorem Inv.insertBlock {d d' : Db} (h : Inv d) (cid : Nat) (k o : Str) (he : d.insertBlock cid k o = some d') : Inv d' := by
+theorem InvCore.insertBlock {d d' : Db} (h : InvCore d) (cid : Nat) (k o : Str) (he : d.insertBlock cid k o = some d') : InvCore d' := by
   unfold Db.insertBlock at he
   split at he; · cases he
   split at he; · cases he
   split at he; · cases he
   cases he; exact h.congr rfl rfl rfl (fun _ hid => hid)
 
-theorem Inv.insertFrame {d d' : Db} (h : Inv d) (cid par : Nat) (k o : Str) (he : d.insertFrame cid par k o = some d') : Inv d' := by
+theorem InvCore.insertFrame {d d' : Db} (h : InvCore d) (cid par : Nat) (k o : Str) (he : d.insertFrame cid par k o = some d') : InvCore d' := by
   unfold Db.insertFrame at he
   split at he; · cases he
   split at he; · cases he
@@ -182,8 +182,8 @@ theorem pairwise_append_single {α} {R : α → α → Prop} {l : List α} {x : 
   rw [List.pairwise_append]
   exact ⟨h, List.pairwise_singleton _ _, fun a ha b hb => by simp at hb; subst hb; exact hx a ha⟩
 
-theorem Inv.insertLoopUnnumbered {d d' : Db} (h : Inv d) (cid : Nat) (cat : Option Str)
-    (he : d.insertLoopUnnumbered cid cat = .ok d') : Inv d' := by
+theorem InvCore.insertLoopUnnumbered {d d' : Db} (h : InvCore d) (cid : Nat) (cat : Option Str)
+    (he : d.insertLoopUnnumbered cid cat = .ok d') : InvCore d' := by
   unfold Db.insertLoopUnnumbered at he
   split at he; · cases he
   rename_i hsc
@@ -226,7 +226,7 @@ theorem Inv.insertLoopUnnumbered {d d' : Db} (h : Inv d) (cid : Nat) (cat : Opti
     obtain ⟨l, hl, h1, h2⟩ := (hasLoop_iff d _ _).mp (h.itemFK i hi)
     exact (hasLoop_iff _ _ _).mpr ⟨l, List.mem_append_left _ hl, h1, h2⟩
 
-theorem Inv.insertItem {d d' : Db} (h : Inv d) (cid : Nat) (k o : Str) (ln : Nat) (he : d.insertItem cid k o ln = some d') : Inv d' := by
+theorem InvCore.insertItem {d d' : Db} (h : InvCore d) (cid : Nat) (k o : Str) (ln : Nat) (he : d.insertItem cid k o ln = some d') : InvCore d' := by
   unfold Db.insertItem at he
   split at he; · cases he
   rename_i hfresh
@@ -249,7 +249,7 @@ theorem Inv.insertItem {d d' : Db} (h : Inv d) (cid : Nat) (k o : Str) (ln : Nat
     obtain ⟨i, hi, h1, h2⟩ := (hasItem_iff d _ _).mp (h.valueFK v hv)
     exact (hasItem_iff _ _ _).mpr ⟨i, List.mem_append_left _ hi, h1, h2⟩
 
-theorem Inv.insertValue {d d' : Db} (h : Inv d) (cid : Nat) (k : Str) (row : Nat) (v : V) (he : d.insertValue cid k row v = some d') : Inv d' := by
+theorem InvCore.insertValue {d d' : Db} (h : InvCore d) (cid : Nat) (k : Str) (row : Nat) (v : V) (he : d.insertValue cid k row v = some d') : InvCore d' := by
   unfold Db.insertValue at he
   split at he; · cases he
   rename_i hfresh
@@ -276,7 +276,7 @@ theorem Inv.insertValue {d d' : Db} (h : Inv d) (cid : Nat) (k : Str) (row : Nat
       have : d.hasItem cid k = true := by simpa using hitem
       exact this
 
-theorem Inv.replaceValue {d d' : Db} (h : Inv d) (cid : Nat) (k : Str) (row : Nat) (v : V) (he : d.replaceValue cid k row v = some d') : Inv d' := by
+theorem InvCore.replaceValue {d d' : Db} (h : InvCore d) (cid : Nat) (k : Str) (row : Nat) (v : V) (he : d.replaceValue cid k row v = some d') : InvCore d' := by
   unfold Db.replaceValue at he
   split at he; · cases he
   rename_i hrow
@@ -309,7 +309,7 @@ theorem any_map_key (ls : List LoopRow) (f : LoopRow → LoopRow) (hk : ∀ l, (
   | cons a as ih => simp only [List.map_cons, List.any_cons, ih, (hk a).1, (hk a).2]
 
 /-- the foreign keys survive an update of loop rows that keeps their keys -/
-theorem Inv.fk_mapLoops {d : Db} (h : Inv d) (f : LoopRow → LoopRow) (hk : ∀ l, (f l).cid = l.cid ∧ (f l).loopNum = l.loopNum) :
+theorem InvCore.fk_mapLoops {d : Db} (h : InvCore d) (f : LoopRow → LoopRow) (hk : ∀ l, (f l).cid = l.cid ∧ (f l).loopNum = l.loopNum) :
     (∀ l ∈ d.loops.map f, d.hasContainer l.cid = true) ∧
     (∀ i ∈ d.items, (d.loops.map f).any (fun l => l.cid == i.cid && l.loopNum == i.loopNum) = true) := by
   constructor
@@ -320,9 +320,9 @@ theorem Inv.fk_mapLoops {d : Db} (h : Inv d) (f : LoopRow → LoopRow) (hk : ∀
     rw [any_map_key _ f hk]
     exact h.itemFK i hi
 
-theorem Inv.mapLoops {d : Db} (h : Inv d) (f : LoopRow → LoopRow) (hk : ∀ l, (f l).cid = l.cid ∧ (f l).loopNum = l.loopNum ∧ (f l).category = l.category)
+theorem InvCore.mapLoops {d : Db} (h : InvCore d) (f : LoopRow → LoopRow) (hk : ∀ l, (f l).cid = l.cid ∧ (f l).loopNum = l.loopNum ∧ (f l).category = l.category)
     (hr : ∀ l ∈ d.loops, (f l).category = some [] → (f l).lastRowNum ≤ 1) :
-    Inv { d with loops := d.loops.map f } := by
+    InvCore { d with loops := d.loops.map f } := by
   have hfk := h.fk_mapLoops f (fun l => ⟨(hk l).1, (hk l).2.1⟩)
   refine ⟨?_, h.itemPK, h.valuePK, ?_, ?_, h.rowPos, hfk.1, hfk.2, h.valueFK⟩
   · show (d.loops.map f).Pairwise LoopKeyNe
@@ -335,7 +335,7 @@ theorem Inv.mapLoops {d : Db} (h : Inv d) (f : LoopRow → LoopRow) (hk : ∀ l,
     obtain ⟨a, ha, rfl⟩ := List.mem_map.mp hm
     exact hr a ha
 
-theorem Inv.bumpRowNum {d d' : Db} (h : Inv d) (cid ln : Nat) (he : d.bumpRowNum cid ln = .ok d') : Inv d' := by
+theorem InvCore.bumpRowNum {d d' : Db} (h : InvCore d) (cid ln : Nat) (he : d.bumpRowNum cid ln = .ok d') : InvCore d' := by
   unfold Db.bumpRowNum at he
   split at he; · cases he
   rename_i hchk
@@ -357,7 +357,7 @@ theorem Inv.bumpRowNum {d d' : Db} (h : Inv d) (cid ln : Nat) (he : d.bumpRowNum
     · simp only [hm, if_false] at hc ⊢
       exact h.scalarRows l hl hc
 
-theorem Inv.resetRowNum {d : Db} (h : Inv d) (cid ln : Nat) : Inv (d.resetRowNum cid ln) := by
+theorem InvCore.resetRowNum {d : Db} (h : InvCore d) (cid ln : Nat) : InvCore (d.resetRowNum cid ln) := by
   apply h.mapLoops (fun l => if l.cid == cid && l.loopNum == ln then { l with lastRowNum := 0 } else l)
   · intro l; split <;> exact ⟨rfl, rfl, rfl⟩
   · intro l hl hc
@@ -415,7 +415,7 @@ theorem loopRows_sorted (d : Db) (cid ln : Nat) : (d.loopRows cid ln).Pairwise (
     | cons v vs ih => intro acc ha; exact ih _ (insertNat_sorted _ _ ha)
   exact this _ [] List.Pairwise.nil
 
-theorem loopRows_pos {d : Db} (h : Inv d) (cid ln : Nat) : ∀ r ∈ d.loopRows cid ln, 0 < r := by
+theorem loopRows_pos {d : Db} (h : InvCore d) (cid ln : Nat) : ∀ r ∈ d.loopRows cid ln, 0 < r := by
   unfold Db.loopRows
   have : ∀ (vs : List ValueRow) (acc : List Nat), (∀ v ∈ vs, 0 < v.rowNum) → (∀ r ∈ acc, 0 < r) →
       ∀ r ∈ vs.foldl (fun acc v => Db.insertNat v.rowNum acc) acc, 0 < r := by
@@ -432,7 +432,7 @@ theorem loopRows_pos {d : Db} (h : Inv d) (cid ln : Nat) : ∀ r ∈ d.loopRows 
       · exact ha r' h1
   exact this _ [] (fun v hv => h.rowPos v (List.mem_filter.mp hv).1) (fun r hr => nomatch hr)
 
-theorem Inv.setAllValues {d : Db} (h : Inv d) (cid : Nat) (k : Str) (v : V) : Inv (d.setAllValues cid k v).1 := by
+theorem InvCore.setAllValues {d : Db} (h : InvCore d) (cid : Nat) (k : Str) (v : V) : InvCore (d.setAllValues cid k v).1 := by
   unfold Db.setAllValues
   split
   · exact h
@@ -479,8 +479,8 @@ theorem loopKey_unique : ∀ (ls : List LoopRow), ls.Pairwise LoopKeyNe → ∀ 
     · exact loopKey_unique xs hp.2 a ha' b hb' h1 h2
 
 /-- SET_CATEGORY_SQL with its triggers tr2_loop / tr4_loop -/
-theorem Inv.setCategory {d d' : Db} (h : Inv d) (cid ln : Nat) (cat : Option Str) (n : Nat)
-    (he : d.setCategory cid ln cat = .ok (d', n)) : Inv d' := by
+theorem InvCore.setCategory {d d' : Db} (h : InvCore d) (cid ln : Nat) (cat : Option Str) (n : Nat)
+    (he : d.setCategory cid ln cat = .ok (d', n)) : InvCore d' := by
   unfold Db.setCategory at he
   split at he
   · cases he; exact h
@@ -566,6 +566,300 @@ theorem Inv.setCategory {d d' : Db} (h : Inv d) (cid ln : Nat) (cat : Option Str
       · have hfa : f a = a := by simp only [f, hma]; rfl
         rw [hfa] at hc
         exact h.scalarRows a ha hc
+
+-- ---- the second group of clauses: container keys, the id sequence, loop numbers below next_loop_num --------------------------
+
+structure InvExt (d : Db) : Prop where
+  containerPK : d.containers.Pairwise (fun a b => a.id ≠ b.id)
+  idsBelow : ∀ c ∈ d.containers, c.id < d.nextId
+  /-- loop numbers stay below the container's next_loop_num (tr1_unnumbered_loop hands them out in sequence) -/
+  loopNumsBelow : ∀ c ∈ d.containers, ∀ l ∈ d.loops, l.cid = c.id → l.loopNum < c.nextLoopNum
+
+theorem InvExt.empty : InvExt {} := ⟨List.Pairwise.nil, (fun c h => nomatch h), (fun c h => nomatch h)⟩
+
+/-- statements that add no container, keep the id sequence and add no loop key -/
+theorem InvExt.shrink {d d' : Db} (h : InvExt d) (hsub : d'.containers.Sublist d.containers) (hn : d'.nextId = d.nextId)
+    (hl : ∀ l ∈ d'.loops, ∃ l0 ∈ d.loops, l0.cid = l.cid ∧ l0.loopNum = l.loopNum) : InvExt d' :=
+  ⟨h.containerPK.sublist hsub, fun c hc => by rw [hn]; exact h.idsBelow c (hsub.subset hc),
+   fun c hc l hlm hk => by
+     obtain ⟨l0, hl0, h1, h2⟩ := hl l hlm
+     rw [← h2]; exact h.loopNumsBelow c (hsub.subset hc) l0 hl0 (by rw [h1, hk])⟩
+
+theorem InvExt.sameLoops {d d' : Db} (h : InvExt d) (hc : d'.containers = d.containers) (hn : d'.nextId = d.nextId)
+    (hl : d'.loops = d.loops) : InvExt d' :=
+  h.shrink (by rw [hc]; exact List.Sublist.refl _) hn (fun l hlm => ⟨l, by rw [← hl]; exact hlm, rfl, rfl⟩)
+
+theorem containerKey_unique : ∀ (cs : List ContainerRow), cs.Pairwise (fun a b => a.id ≠ b.id) → ∀ a ∈ cs, ∀ b ∈ cs, a.id = b.id → a = b
+  | [], _, a, ha, _, _, _ => nomatch ha
+  | x :: xs, hp, a, ha, b, hb, h1 => by
+    rw [List.pairwise_cons] at hp
+    rcases List.mem_cons.mp ha with rfl | ha' <;> rcases List.mem_cons.mp hb with rfl | hb'
+    · rfl
+    · exact absurd h1 (hp.1 b hb')
+    · exact absurd h1.symm (hp.1 a ha')
+    · exact containerKey_unique xs hp.2 a ha' b hb' h1
+
+theorem InvExt.insertContainer {d : Db} (h : InvExt d) (hc : InvCore d) : InvExt d.insertContainer.1 := by
+  unfold Db.insertContainer
+  refine ⟨?_, ?_, ?_⟩
+  · apply pairwise_append_single h.containerPK
+    intro a ha
+    have := h.idsBelow a ha
+    simp only []; omega
+  · intro c hcm
+    simp only [] at hcm ⊢
+    rcases List.mem_append.mp hcm with hcm | hcm
+    · have := h.idsBelow c hcm; omega
+    · simp at hcm; subst hcm; simp
+  · intro c hcm l hl hk
+    simp only [] at hcm hl
+    rcases List.mem_append.mp hcm with hcm | hcm
+    · exact h.loopNumsBelow c hcm l hl hk
+    · simp at hcm; subst hcm
+      -- no loop can refer to the id that has not been handed out yet
+      exfalso
+      obtain ⟨r, hr, hre⟩ := (hasContainer_iff d _).mp (hc.loopFK l hl)
+      have := h.idsBelow r hr
+      simp only [] at hk
+      omega
+
+theorem InvExt.insertLoopUnnumbered {d d' : Db} (h : InvExt d) (cid : Nat) (cat : Option Str)
+    (he : d.insertLoopUnnumbered cid cat = .ok d') : InvExt d' := by
+  unfold Db.insertLoopUnnumbered at he
+  split at he; · cases he
+  split at he; · cases he
+  rename_i c hc
+  split at he; · cases he
+  cases he
+  have hcm := List.mem_of_find?_eq_some hc
+  have hck : c.id = cid := by have := List.find?_some hc; simpa using this
+  let f : ContainerRow → ContainerRow := fun r => if r.id == cid then { r with nextLoopNum := r.nextLoopNum + 1 } else r
+  have hfid : ∀ r, (f r).id = r.id := by intro r; simp only [f]; split <;> rfl
+  have hfn : ∀ r, r.nextLoopNum ≤ (f r).nextLoopNum := by intro r; simp only [f]; split <;> simp
+  refine ⟨?_, ?_, ?_⟩
+  · show (d.containers.map f).Pairwise _
+    rw [List.pairwise_map]
+    exact h.containerPK.imp (fun {a b} hab => by rw [hfid, hfid]; exact hab)
+  · intro r hr
+    obtain ⟨r0, hr0, rfl⟩ := List.mem_map.mp hr
+    rw [hfid]; exact h.idsBelow r0 hr0
+  · intro r hr l hl hk
+    obtain ⟨r0, hr0, rfl⟩ := List.mem_map.mp hr
+    rw [hfid] at hk
+    rcases List.mem_append.mp hl with hl | hl
+    · exact Nat.lt_of_lt_of_le (h.loopNumsBelow r0 hr0 l hl hk) (hfn r0)
+    · simp at hl; subst hl
+      simp only [] at hk ⊢
+      have : r0 = c := containerKey_unique d.containers h.containerPK r0 hr0 c hcm (by rw [← hk, hck])
+      subst this
+      simp [f, hck]
+
+-- ---- the third group: data_block / save_frame rows belong to existing containers ---------------------------------------------
+
+structure InvTree (d : Db) : Prop where
+  blockFK : ∀ b ∈ d.blocks, d.hasContainer b.cid = true
+  frameFK : ∀ f ∈ d.frames, d.hasContainer f.cid = true ∧ d.hasContainer f.parent = true
+
+theorem InvTree.empty : InvTree {} := ⟨(fun _ h => nomatch h), (fun _ h => nomatch h)⟩
+
+/-- statements that touch neither data_block nor save_frame and lose no container -/
+theorem InvTree.same {d d' : Db} (h : InvTree d) (hb : d'.blocks = d.blocks) (hf : d'.frames = d.frames)
+    (hc : ∀ id, d.hasContainer id = true → d'.hasContainer id = true) : InvTree d' :=
+  ⟨by rw [hb]; exact fun b hbm => hc _ (h.blockFK b hbm), by rw [hf]; exact fun f hfm => ⟨hc _ (h.frameFK f hfm).1, hc _ (h.frameFK f hfm).2⟩⟩
+
+theorem hasContainer_append (d : Db) (x : ContainerRow) (id : Nat) (h : d.hasContainer id = true) :
+    ({ d with containers := d.containers ++ [x] } : Db).hasContainer id = true := by
+  obtain ⟨r, hr, he⟩ := (hasContainer_iff d id).mp h
+  exact (hasContainer_iff _ id).mpr ⟨r, List.mem_append_left _ hr, he⟩
+
+theorem InvTree.deleteContainer {d : Db} (h : InvTree d) (id : Nat) : InvTree (d.deleteContainer id).1 := by
+  unfold Db.deleteContainer
+  simp only []
+  split
+  · exact h
+  · have hkeep : ∀ c, c ≠ id → d.hasContainer c = true →
+        (d.containers.filter (fun r => !(r.id == id))).any (fun r => r.id == c) = true := by
+      intro c hne hc
+      obtain ⟨r, hr, hre⟩ := (hasContainer_iff d c).mp hc
+      rw [List.any_eq_true]
+      exact ⟨r, List.mem_filter.mpr ⟨hr, by simp [hre, hne]⟩, by simp [hre]⟩
+    refine ⟨?_, ?_⟩
+    · intro b hb
+      have hb' : b ∈ d.blocks.filter (fun b => !(b.cid == id)) := hb
+      obtain ⟨hbm, hbk⟩ := List.mem_filter.mp hb'
+      exact hkeep b.cid (by simpa using hbk) (h.blockFK b hbm)
+    · intro f hf
+      have hf' : f ∈ d.frames.filter (fun f => !(f.cid == id) && !(f.parent == id)) := hf
+      obtain ⟨hfm, hfk⟩ := List.mem_filter.mp hf'
+      simp at hfk
+      exact ⟨hkeep f.cid hfk.1 (h.frameFK f hfm).1, hkeep f.parent hfk.2 (h.frameFK f hfm).2⟩
+
+/-- the invariant of DESIGN.md: `InvCore` (keys, scalar loop, foreign keys, positive rows) and `InvExt` (container keys, id
+    sequence, loop numbers below next_loop_num) -/
+structure Inv (d : Db) : Prop where
+  core : InvCore d
+  ext : InvExt d
+  tree : InvTree d
+
+theorem Inv.empty : Inv {} := ⟨InvCore.empty, InvExt.empty, InvTree.empty⟩
+theorem Inv.loopPK {d : Db} (h : Inv d) : d.loops.Pairwise LoopKeyNe := h.core.loopPK
+theorem Inv.itemPK {d : Db} (h : Inv d) : d.items.Pairwise ItemKeyNe := h.core.itemPK
+theorem Inv.valuePK {d : Db} (h : Inv d) : d.values.Pairwise ValueKeyNe := h.core.valuePK
+theorem Inv.scalar1 {d : Db} (h : Inv d) : d.loops.Pairwise ScalarNe := h.core.scalar1
+theorem Inv.scalarRows {d : Db} (h : Inv d) : ∀ l ∈ d.loops, l.category = some [] → l.lastRowNum ≤ 1 := h.core.scalarRows
+theorem Inv.rowPos {d : Db} (h : Inv d) : ∀ v ∈ d.values, 0 < v.rowNum := h.core.rowPos
+theorem Inv.loopFK {d : Db} (h : Inv d) : ∀ l ∈ d.loops, d.hasContainer l.cid = true := h.core.loopFK
+theorem Inv.itemFK {d : Db} (h : Inv d) : ∀ i ∈ d.items, d.hasLoop i.cid i.loopNum = true := h.core.itemFK
+theorem Inv.valueFK {d : Db} (h : Inv d) : ∀ v ∈ d.values, d.hasItem v.cid v.name = true := h.core.valueFK
+theorem Inv.toLoopPK {d : Db} (h : Inv d) : LoopPK d := h.core.toLoopPK
+theorem Inv.loopNumsBelow {d : Db} (h : Inv d) : ∀ c ∈ d.containers, ∀ l ∈ d.loops, l.cid = c.id → l.loopNum < c.nextLoopNum := h.ext.loopNumsBelow
+
+theorem filter_keys_sub {d : Db} (p : LoopRow → Bool) : ∀ l ∈ d.loops.filter p, ∃ l0 ∈ d.loops, l0.cid = l.cid ∧ l0.loopNum = l.loopNum :=
+  fun l hl => ⟨l, (List.mem_filter.mp hl).1, rfl, rfl⟩
+
+theorem InvTree.insertBlock {d d' : Db} (h : InvTree d) (cid : Nat) (k o : Str) (he : d.insertBlock cid k o = some d') : InvTree d' := by
+  unfold Db.insertBlock at he
+  split at he; · cases he
+  split at he; · cases he
+  split at he; · cases he
+  rename_i hc
+  cases he
+  refine ⟨?_, h.frameFK⟩
+  intro b hb
+  rcases List.mem_append.mp hb with hb | hb
+  · exact h.blockFK b hb
+  · simp at hb; subst hb
+    have : d.hasContainer cid = true := by simpa using hc
+    exact this
+
+theorem InvTree.insertFrame {d d' : Db} (h : InvTree d) (cid par : Nat) (k o : Str) (he : d.insertFrame cid par k o = some d') : InvTree d' := by
+  unfold Db.insertFrame at he
+  split at he; · cases he
+  split at he; · cases he
+  split at he; · cases he
+  split at he; · cases he
+  rename_i hc1
+  split at he; · cases he
+  rename_i hc2
+  cases he
+  refine ⟨h.blockFK, ?_⟩
+  intro f hf
+  rcases List.mem_append.mp hf with hf | hf
+  · exact h.frameFK f hf
+  · simp at hf; subst hf
+    have h1 : d.hasContainer cid = true := by simpa using hc1
+    have h2 : d.hasContainer par = true := by simpa using hc2
+    exact ⟨h1, h2⟩
+
+theorem InvTree.insertLoopUnnumbered {d d' : Db} (h : InvTree d) (cid : Nat) (cat : Option Str)
+    (he : d.insertLoopUnnumbered cid cat = .ok d') : InvTree d' := by
+  unfold Db.insertLoopUnnumbered at he
+  split at he; · cases he
+  split at he; · cases he
+  split at he; · cases he
+  cases he
+  refine InvTree.same h rfl rfl ?_
+  intro id hid
+  obtain ⟨r, hr, hre⟩ := (hasContainer_iff d id).mp hid
+  show (d.containers.map _).any _ = true
+  rw [List.any_eq_true]
+  refine ⟨_, List.mem_map.mpr ⟨r, hr, rfl⟩, ?_⟩
+  split <;> simp [hre]
+
+theorem Inv.insertContainer {d : Db} (h : Inv d) : Inv d.insertContainer.1 :=
+  ⟨h.core.insertContainer, h.ext.insertContainer h.core, h.tree.same rfl rfl (fun id hid => hasContainer_append d _ id hid)⟩
+theorem Inv.insertBlock {d d' : Db} (h : Inv d) (cid : Nat) (k o : Str) (he : d.insertBlock cid k o = some d') : Inv d' := by
+  refine ⟨h.core.insertBlock cid k o he, ?_, h.tree.insertBlock cid k o he⟩
+  unfold Db.insertBlock at he
+  split at he; · cases he
+  split at he; · cases he
+  split at he; · cases he
+  cases he; exact h.ext.sameLoops rfl rfl rfl
+theorem Inv.insertFrame {d d' : Db} (h : Inv d) (cid par : Nat) (k o : Str) (he : d.insertFrame cid par k o = some d') : Inv d' := by
+  refine ⟨h.core.insertFrame cid par k o he, ?_, h.tree.insertFrame cid par k o he⟩
+  unfold Db.insertFrame at he
+  split at he; · cases he
+  split at he; · cases he
+  split at he; · cases he
+  split at he; · cases he
+  split at he; · cases he
+  cases he; exact h.ext.sameLoops rfl rfl rfl
+theorem Inv.deleteItems {d : Db} (h : Inv d) (p : ItemRow → Bool) : Inv (d.deleteItems p) :=
+  ⟨h.core.deleteItems p, h.ext.sameLoops rfl rfl rfl, h.tree.same rfl rfl (fun _ hid => hid)⟩
+theorem Inv.deleteLoops {d : Db} (h : Inv d) (p : LoopRow → Bool) : Inv (d.deleteLoops p) :=
+  ⟨h.core.deleteLoops p, h.ext.shrink (List.Sublist.refl _) rfl (filter_keys_sub _), h.tree.same rfl rfl (fun _ hid => hid)⟩
+theorem Inv.deleteContainer {d : Db} (h : Inv d) (id : Nat) : Inv (d.deleteContainer id).1 := by
+  refine ⟨h.core.deleteContainer id, ?_, h.tree.deleteContainer id⟩
+  unfold Db.deleteContainer
+  simp only []
+  split
+  · exact h.ext
+  · exact h.ext.shrink (List.filter_sublist) rfl (filter_keys_sub _)
+theorem Inv.removeItem {d : Db} (h : Inv d) (cid : Nat) (k : Str) : Inv (d.removeItem cid k) := h.deleteItems _
+theorem Inv.destroyLoop {d : Db} (h : Inv d) (cid ln : Nat) : Inv (d.destroyLoop cid ln).1 := h.deleteLoops _
+theorem Inv.prune {d : Db} (h : Inv d) (cid : Nat) : Inv (d.prune cid) := h.deleteLoops _
+theorem Inv.removePacket {d : Db} (h : Inv d) (cid ln row : Nat) : Inv (d.removePacket cid ln row) :=
+  ⟨h.core.removePacket cid ln row, h.ext.sameLoops rfl rfl rfl, h.tree.same rfl rfl (fun _ hid => hid)⟩
+theorem Inv.insertLoopUnnumbered {d d' : Db} (h : Inv d) (cid : Nat) (cat : Option Str) (he : d.insertLoopUnnumbered cid cat = .ok d') : Inv d' :=
+  ⟨h.core.insertLoopUnnumbered cid cat he, h.ext.insertLoopUnnumbered cid cat he, h.tree.insertLoopUnnumbered cid cat he⟩
+theorem Inv.insertItem {d d' : Db} (h : Inv d) (cid : Nat) (k o : Str) (ln : Nat) (he : d.insertItem cid k o ln = some d') : Inv d' := by
+  refine ⟨h.core.insertItem cid k o ln he, ?_, ?_⟩ <;>
+  · unfold Db.insertItem at he
+    split at he; · cases he
+    split at he; · cases he
+    cases he
+    first | exact h.ext.sameLoops rfl rfl rfl | exact h.tree.same rfl rfl (fun _ hid => hid)
+theorem Inv.insertValue {d d' : Db} (h : Inv d) (cid : Nat) (k : Str) (row : Nat) (v : V) (he : d.insertValue cid k row v = some d') : Inv d' := by
+  refine ⟨h.core.insertValue cid k row v he, ?_, ?_⟩ <;>
+  · unfold Db.insertValue at he
+    split at he; · cases he
+    split at he; · cases he
+    split at he; · cases he
+    cases he
+    first | exact h.ext.sameLoops rfl rfl rfl | exact h.tree.same rfl rfl (fun _ hid => hid)
+theorem Inv.replaceValue {d d' : Db} (h : Inv d) (cid : Nat) (k : Str) (row : Nat) (v : V) (he : d.replaceValue cid k row v = some d') : Inv d' := by
+  refine ⟨h.core.replaceValue cid k row v he, ?_, ?_⟩ <;>
+  · unfold Db.replaceValue at he
+    split at he; · cases he
+    split at he; · cases he
+    cases he
+    first | exact h.ext.sameLoops rfl rfl rfl | exact h.tree.same rfl rfl (fun _ hid => hid)
+theorem Inv.setAllValues {d : Db} (h : Inv d) (cid : Nat) (k : Str) (v : V) : Inv (d.setAllValues cid k v).1 := by
+  refine ⟨h.core.setAllValues cid k v, ?_, ?_⟩ <;>
+  · unfold Db.setAllValues
+    split
+    · first | exact h.ext | exact h.tree
+    · first | exact h.ext.sameLoops rfl rfl rfl | exact h.tree.same rfl rfl (fun _ hid => hid)
+
+theorem map_keys_sub {d : Db} (f : LoopRow → LoopRow) (hk : ∀ l, (f l).cid = l.cid ∧ (f l).loopNum = l.loopNum) :
+    ∀ l ∈ d.loops.map f, ∃ l0 ∈ d.loops, l0.cid = l.cid ∧ l0.loopNum = l.loopNum := by
+  intro l hl
+  obtain ⟨a, ha, rfl⟩ := List.mem_map.mp hl
+  exact ⟨a, ha, (hk a).1.symm, (hk a).2.symm⟩
+
+theorem Inv.bumpRowNum {d d' : Db} (h : Inv d) (cid ln : Nat) (he : d.bumpRowNum cid ln = .ok d') : Inv d' := by
+  refine ⟨h.core.bumpRowNum cid ln he, ?_, ?_⟩ <;>
+  · unfold Db.bumpRowNum at he
+    split at he; · cases he
+    cases he
+    first
+    | exact h.ext.shrink (List.Sublist.refl _) rfl (map_keys_sub _ (fun l => by split <;> exact ⟨rfl, rfl⟩))
+    | exact h.tree.same rfl rfl (fun _ hid => hid)
+theorem Inv.resetRowNum {d : Db} (h : Inv d) (cid ln : Nat) : Inv (d.resetRowNum cid ln) :=
+  ⟨h.core.resetRowNum cid ln, h.ext.shrink (List.Sublist.refl _) rfl (map_keys_sub _ (fun l => by split <;> exact ⟨rfl, rfl⟩)),
+   h.tree.same rfl rfl (fun _ hid => hid)⟩
+theorem Inv.setCategory {d d' : Db} (h : Inv d) (cid ln : Nat) (cat : Option Str) (n : Nat)
+    (he : d.setCategory cid ln cat = .ok (d', n)) : Inv d' := by
+  refine ⟨h.core.setCategory cid ln cat n he, ?_, ?_⟩ <;>
+  · unfold Db.setCategory at he
+    split at he
+    · cases he; first | exact h.ext | exact h.tree
+    · split at he; · cases he
+      split at he; · cases he
+      cases he
+      first
+      | exact h.ext.shrink (List.Sublist.refl _) rfl (map_keys_sub _ (fun l => by split <;> exact ⟨rfl, rfl⟩))
+      | exact h.tree.same rfl rfl (fun _ hid => hid)
 
 -- ---- transactions: the content and every snapshot a rollback could restore satisfy the invariant ----------------------------
 
